@@ -1,18 +1,20 @@
 """C12 — accepting or rejecting CriticMarkup yields exactly the edited text (E3, model-based)."""
 import os
+import re
 import subprocess
 
 from hypothesis import strategies as st
 
 from lib import hyp, vbuild
 from lib.hyp import Violation
+from lib.worker import EXT
 
 PROP = 'C12'
 RULE = ('Hypothesis-generated edit scripts: Text | Add(items) | Del(items) | Hi(items) | Com(text) | Sub(old,new), depth<=4, text over '
         'letters, blanks, newlines/blank lines, the delimiter characters + - ~ = < > and the escape pairs \\{ \\} \\+ \\- \\~ \\> \\=; '
         'optionally one or two unmatched markers (opener, closer, lone ~>) of kinds not otherwise left open. Oracle: Python string '
         'model of accept/reject on the whole string and on a sub-range covering whole top-level items, idempotence, and (sampled) '
-        'CLI -a/-r vs. rendering of the model text. Non-trivial: >=2 marks with one nested, adjacent to another mark or spanning a '
+        'CLI -a/-r vs. rendering of the model text, and (single-line scripts over plain words) conversion through the library WITH the accept/reject option vs. conversion of the model text, html/latex/fodt, white space normalised. Non-trivial: >=2 marks with one nested, adjacent to another mark or spanning a '
         'blank line; distinct by serialised text+operation+range.')
 ASSUMPTIONS = ['marks nest only inside additions/deletions/highlights (as in the statement); text never contains a bare { or }',
                'the model is the Python code in props/c12.py (independent of critic_markup.c)',
@@ -51,7 +53,7 @@ def strategy(tier):
     unmatched = st.lists(st.tuples(st.sampled_from(['A', 'D', 'H', 'S', 'C', 'V']), st.booleans(), st.integers(0, 6)), max_size=2,
                          unique_by=lambda t: t[0])
     return st.fixed_dictionaries({'items': items(3), 'unmatched': st.one_of(st.just([]), unmatched),
-                                  'range': st.tuples(st.integers(0, 5), st.integers(0, 5)), 'cli': st.integers(0, 19),
+                                  'range': st.tuples(st.integers(0, 5), st.integers(0, 5)), 'cli': st.integers(0, 19), 'lib': st.integers(0, 5), 'plain': st.sampled_from([False, False, True]),
                                   'fmt': st.sampled_from(['html', 'latex', 'fodt', 'opml', 'beamer'])})
 
 
@@ -119,8 +121,28 @@ def count_marks(its):
     return n, nested
 
 
+def plainify(its):
+    """The same edit script with every text unit that could take part in other markup (~ < newline) replaced by a letter, and a leading word:
+    used for the library-option relation, which is about the marks only."""
+    def txt(us):
+        return [u if u not in ('~', '<', '>', '\n', '\n\n', '\\~', '\\>') else 'a' for u in us]
+    out = []
+    for it in its:
+        if it[0] in ('T', 'C'):
+            out.append([it[0], txt(it[1])])
+        elif it[0] == 'S':
+            out.append(['S', txt(it[1]), txt(it[2])])
+        elif it[0] == 'U':
+            out.append(it)
+        else:
+            out.append([it[0], plainify(it[1])])
+    return out
+
+
 def build(case):
     its = norm(case['items'])
+    if case.get('plain'):
+        its = [['T', ['w', 'o', 'r', 'd', ' ']]] + plainify(its)
     # unmatched markers at top level; a kind is used only if no two unmatched markers could pair with each other
     for kind, is_open, pos in case.get('unmatched', []):
         m = '~>' if kind == 'V' else (OPEN[kind] if is_open else CLOSE[kind])
@@ -128,6 +150,13 @@ def build(case):
         # a stray marker directly after text ending in '~' could read as '~>' + ... : keep a blank before it
         its = its[:pos] + [['T', [' ']], ['U', m], ['T', [' ']]] + its[pos:]
     return its
+
+
+def ws_norm(b):
+    b = re.sub(rb'[ \t\r\n]+', b' ', b)
+    b = re.sub(rb' ?(</?[A-Za-z][^>]*>) ?', rb'\1', b)       # blanks next to a tag
+    b = re.sub(rb' ([.,;:!?}])', rb'\1', b)
+    return b.strip()
 
 
 def check(case, ctx):
@@ -169,6 +198,22 @@ def check(case, ctx):
     if n_marks >= 2 and (n_nested or blank or '}{' in src):
         ctx.nontrivial(src)
         ctx.sample(src)
+    # library leg: converting WITH the accept / reject option renders what the accepted / rejected text renders to.  The writers resolve the
+    # marks themselves on this route (no string pre-pass); blanks left behind by a dropped mark are not part of the statement, so white
+    # space is compared in normalised form.
+    # (marks that span a line or paragraph break can enclose block-level structure: these are changes that only the string functions can apply, and a paragraph whose whole
+    # content is dropped leaves an empty paragraph behind: both are outside this relation)
+    if not unmatched and src.strip() and case.get('lib', 0) in (0, 1, 2) and '\n' not in src.strip('\n') and re.match(r'\s*[A-Za-z]', model(its, True)) and re.match(r'\s*[A-Za-z]', model(its, False)) and re.match(r'\s*([A-Za-z]|\{[+=~>-])', src) \
+            and not re.search(r'[~<]', model(its, True) + model(its, False)) \
+            and not re.search(r'\+\+\+\}|---\}|===\}|~~~\}|<<<\}|\{\+\+\+|\{---|\{===|\{~~~|\{>>>|-\{--|--\}-', src):      # a payload character that merges with its own delimiter (`---}` lexes as a dash + `}`)      # pieces of text that only meet after editing must not form markup of their own (~sub~, <tag>)
+        lfmt = ('html', 'latex', 'fodt')[case.get('lib', 0)]
+        base = EXT['CRITIC'] | EXT['NOTES'] | EXT['SMART'] | EXT['SNIPPET']
+        for acc, bit in ((True, EXT['CRITIC_ACCEPT']), (False, EXT['CRITIC_REJECT'])):
+            with_opt = w.convert(src, lfmt, base | bit).out
+            edited = w.convert(model(its, acc), lfmt, base).out
+            if ws_norm(with_opt) != ws_norm(edited):
+                raise Violation('option:%s:%s' % ('accept' if acc else 'reject', lfmt), 'src=%r\nwith the option: %r\nedited text:     %r' % (src, with_opt[-600:], edited[-600:]))
+        ctx.cls('library_option_leg_' + lfmt)
     # CLI leg (sampled): -a / -r render what the accepted / rejected text renders to
     if case['cli'] == 0 and not unmatched and src.strip():
         cli = vbuild.cli('asan')
